@@ -63,6 +63,8 @@ func VH_C18_ClientEndpoint() {
 	} else {
 		p = "/tmp/FS_4711"
 	}
+	vhScrub(p)
+	defer vhScrub(p)
 	before := vhTmpNames()
 	checked := false
 	io_.peer = func(k int) []vhItem {
